@@ -3,8 +3,16 @@ CONSTANTS Atoms = {"a", "b", "c"}
  FullConn = 2
  RepFull = FALSE
  MaxConn = 2
+ ClashAtoms = {"a"}
+ XAtoms = {"x1", "x2"}
+ ClashConn = 2
+ ConstAtoms = {"a", "b"}
+ ConstConn = 1
+ WithConsts = FALSE
 INVARIANT RefTheoremValid
 INVARIANT RefEquisat
+INVARIANT RefTopIsVariable
 INVARIANT RefDefinitional
+INVARIANT RefConservative
 POSTCONDITION Emit
 CHECK_DEADLOCK FALSE
